@@ -185,3 +185,39 @@ def run(ck, facts, tier):
                "traversal: no visit method returns ControlFlow::Break, so a type parameter, fn pointer or other leaf met early cannot hide "
                "the types visited after it")
     collector_never_breaks(ck, R, facts, "chalk_solve", "<chalk_solve::wf::InputTypeCollector as chalk_ir::visit::TypeVisitor>::", "InputTypeCollector", 2)
+
+    R = "C21.ADT-ENV"
+    ck.rule(R, "K2: verify_adt_decl proves the field types (and where-clause types) well-formed under *exactly* the declaration's where clauses as "
+               "hypotheses: the first argument of `gb.implies(..)` is where_clauses mapped through into_from_env_goal - nothing is chained "
+               "to it and no type is assumed (`FromEnv(Ty)` of a where-clause type would make its own WF goal circular and, through implied "
+               "bounds, let the declaration rely on bounds no user of the struct has to prove); the goals are WellFormed of every input type "
+               "of (fields, where_clauses)")
+    vk = "chalk_solve::wf::WfSolver::verify_adt_decl"
+    vb = need_body(ck, facts, R, vk)
+    if vb:
+        th = facts.thir(vk)
+        imps = [c for c in calls(th, ("GoalBuilder::implies", "implies"))]
+        ck.floor(R, "verify_adt_decl.implies", len(imps), 1)
+        lets = {st["pat"].get("n"): st["init"] for st in walk(th) if st.get("k") == "let" and st.get("init") is not None and st["pat"].get("k") == "bind"}
+        for c in imps[:1]:
+            hyp = c["args"][1] if len(c["args"]) > 1 else {}
+            exprs = [hyp] + [lets[v] for v in expr_vars(hyp) if v in lets and v not in ("interner", "gb")]
+            bad = []
+            for e in exprs:
+                if has_call(e, ("Iterator::chain", "chain")):
+                    bad.append("something is chained to the where clauses")
+                if has_call(e, ("types_in", "InputTypeCollector::types_in")):
+                    bad.append("types are collected into the hypotheses")
+            froms = [x for e in exprs for x in calls(e, "into_from_env_goal")]
+            src_ok = "where_clauses" in expr_vars(hyp) or any("where_clauses" in expr_vars(e) for e in exprs)
+            if bad or len(froms) != 1 or not src_ok:
+                ck.violation(R, "verify_adt_decl:hypotheses=where-clauses-only", vb.where(c.get("ln")),
+                             "; ".join(bad) or "hypotheses are not exactly where_clauses.map(into_from_env_goal)")
+            else:
+                ck.ok(R, "verify_adt_decl:hypotheses=where-clauses-only")
+        ti = [c for c in calls(th, ("types_in", "InputTypeCollector::types_in"))]
+        if ti and any({"fields", "where_clauses"} <= expr_vars(c) for c in ti) and has_call(th, "well_formed"):
+            ck.ok(R, "verify_adt_decl:goals=WF(input types of fields and where clauses)")
+        else:
+            ck.violation(R, "verify_adt_decl:goals=WF(input types of fields and where clauses)", vb.where(),
+                         "every input type of the fields and of the where clauses must be proven well-formed")
